@@ -18,6 +18,16 @@ from . import core
 VFX = os.environ.get("VERIF_VFX", "/verif/.cache/vfx-target/release/vfx")
 
 
+# zero-argument `&self` observers of dependency / crate types: modelled as uninterpreted functions of the receiver
+PURE_GETTERS = {"size", "is_zero", "is_empty", "degree", "is_identity", "is_on_curve", "is_torsion_free", "is_some", "is_none",
+                "max_degree", "constraints", "unwrap"}
+
+
+# integer helper methods: uninterpreted binary functions when an operand is symbolic
+PURE_BINARY = {"saturating_sub", "saturating_add", "wrapping_sub", "wrapping_add", "checked_add", "checked_sub", "checked_mul",
+               "unwrap_or", "pow"}
+
+
 class OutsideFragment(Exception):
     pass
 
@@ -384,7 +394,7 @@ class Interp:
             if not self.cfg_active(st):
                 return UNIT
             if st.get("else") is not None:
-                self.fail(st, "let-else")
+                return self.let_else(st, env)
             v = self.expr(st["init"], env) if st["init"] is not None else None
             self.bind(st["pat"], v, env)
             return UNIT
@@ -662,7 +672,7 @@ class Interp:
                     return UNIT
             # guarded effects: `if c { effects }` where the block only produces trace events (no assignment to
             # outer state, no early return): recorded as ONE event  if(c, [events])
-            if not _has_mutation(e["then"]):
+            if not _has_mutation(e["then"]) and not _has_kind(e["then"], ("return", "continue", "break")):
                 saved = self.ctx.log
                 self.ctx.log = []
                 try:
@@ -711,6 +721,31 @@ class Interp:
         if k == "lit" and isinstance(v, (bool, int)):
             return pat["text"] == str(v).lower()
         self.fail(node, f"pattern {k} in match")
+
+    def let_else(self, st, env):
+        """`let Some(p) = E else { diverge };` on a symbolic option: one early-exit event (None branch), then p = some_of(E)"""
+        pat = st["pat"]
+        v = self.expr(st["init"], env)
+        if pat["k"] != "tuple_struct" or pat["path"].split("::")[-1] not in ("Some", "Ok") or len(pat["elems"]) != 1:
+            self.fail(st, "let-else shape")
+        if not isinstance(v, (VOpaque, Sym)):
+            self.fail(st, "let-else on a non-symbolic value")
+        if _has_mutation(st["else"]):
+            self.fail(st, "mutation inside let-else")
+        saved = self.ctx.log
+        self.ctx.log = []
+        try:
+            try:
+                self.expr(st["else"], dict_child(env))
+                self.ctx.log = saved
+                self.fail(st, "let-else block does not diverge")
+            except Return as r:
+                sub = tuple(self.ctx.log)
+                self.ctx.exits.append(("return_if_none", v, r.v, sub))
+        finally:
+            self.ctx.log = saved
+        self.bind(pat["elems"][0], VOpaque("some_of", [v]), env)
+        return UNIT
 
     def e_if_let(self, e, env):
         """`if let Some(p) = E { return V; }` on a symbolic option: one early-exit event, then fall through."""
@@ -762,8 +797,8 @@ class Interp:
         v = self.expr(e["e"], env)
         if isinstance(v, int):
             return v
-        if isinstance(v, (Sym, VOpaque)) and e["ty"].replace(" ", "") in ("u64", "usize"):
-            return v   # usize <-> u64 is lossless on the 64-bit target (stated assumption)
+        if isinstance(v, (Sym, VOpaque, Poly)) and e["ty"].replace(" ", "") in ("u64", "usize", "u128"):
+            return v   # usize <-> u64 (-> u128) is lossless on the 64-bit target (stated assumption)
         self.fail(e, "cast of symbolic value")
 
     def e_macro(self, e, env):
@@ -931,6 +966,14 @@ class Interp:
             return VArr(recv.items, "vec")
         if m == "len" and isinstance(recv, (VArr, VIter)):
             return len(recv.items)
+        if m in PURE_GETTERS and not args and isinstance(recv, (Sym, VOpaque, Poly)):
+            return VOpaque(m, [recv])
+        if m in PURE_BINARY and len(args) == 1 and isinstance(recv, (Sym, VOpaque, Poly, int)):
+            return VOpaque(m, [recv, args[0]])
+        if isinstance(recv, VSymIter) and not args and m in ("copied", "cloned"):
+            return recv
+        if isinstance(recv, VSymIter) and not args and m in ("max", "min", "count"):
+            return VOpaque(m, [recv.sym])
         if m in ("min", "max") and len(args) == 1:
             if isinstance(recv, int) and isinstance(args[0], int):
                 return min(recv, args[0]) if m == "min" else max(recv, args[0])
@@ -1038,6 +1081,16 @@ def _has_mutation(node):
     return False
 
 
+def _has_kind(node, kinds):
+    if isinstance(node, dict):
+        if node.get("k") in kinds:
+            return True
+        return any(_has_kind(v, kinds) for v in node.values())
+    if isinstance(node, list):
+        return any(_has_kind(v, kinds) for v in node)
+    return False
+
+
 def _pat_mut_names(pat):
     k = pat.get("k")
     if k == "ident":
@@ -1128,9 +1181,15 @@ def file_consts(root, rel):
     for it in json.loads(r.stdout):
         if it["kind"] == "const":
             t = it["text"].replace("_", "").strip()
-            if t.isdigit():
-                out[it["path"].split("::")[-1]] = int(t)
-                out[it["path"]] = int(t)
+            import re as _re
+            t2 = _re.sub(r"(\d)(usize|u64|u32|u8|i32|i64)\b", r"\1", t)
+            if _re.fullmatch(r"[0-9xa-fA-F\s+\-*/()<>]+", t2) and not _re.search(r"[a-zA-Z]{2,}", t2.replace("0x", "")):
+                try:
+                    val = int(eval(t2.replace("/", "//"), {"__builtins__": {}}, {}))
+                    out[it["path"].split("::")[-1]] = val
+                    out[it["path"]] = val
+                except Exception:
+                    pass
     return out
 
 
